@@ -35,6 +35,19 @@ def wild(u, rng, values=(0, 1, 2, 6, 9)):
     return v
 
 
+def bridge_patterns(u, heavy=9, light=1):
+    """all elements heavy except one light one (each in turn): when the light element is a bridge shared by several
+    routes, the optimal error on it exceeds every weight of the instance."""
+    out = []
+    for i in range(len(u["ew"])):
+        v = dict(u)
+        v["ew"] = [heavy] * len(u["ew"])
+        v["ew"][i] = light
+        v["nw"] = list(u["nw"])
+        out.append(v)
+    return out
+
+
 def fit_adversary(recs, res, exact, clause="OptimalObjective"):
     adv = []
     for r in recs:
@@ -52,7 +65,7 @@ def fit_adversary(recs, res, exact, clause="OptimalObjective"):
         # keep the adversary's search space small (bounding it can only lose witnesses): with slacks the branching grows
         # with the observed total slack, so large observed objectives are left to the consistency clauses
         is_mpe = r["cls"].startswith("kMinPathError")
-        if (is_mpe and (obs_units > 4 or maxf > 6)) or (not is_mpe and obs_units > 14):
+        if (is_mpe and (obs_units > 4 or maxf > 6)) or (not is_mpe and obs_units > 60):
             res.count_class("adversary_skipped_large_objective")
             continue
         a["acccap"] = maxf + max(0, obs_units) + 1
